@@ -52,7 +52,9 @@ META = {
     "generated workflow (≤ 5 nodes; chain, fan-in, "
     "fan-out, triangle, diamond, random DAG, nodes optionally nested workflows; outer/inner splits over 1–2 of 3 fields, lists of length 1–3, combiners over own "
     "and inherited axes; a dense stream of chains/fan-ins whose nodes have an upstream state AND an own outer/scalar splitter AND a "
-    "combiner over own / inherited / mixed axes) is executed by pydra (debug worker), by the Lean spec interpreter and by the Lean model; workflow outputs, "
+    "combiner over own / inherited / mixed axes; a wide stream of fan-ins of 3 and 4 independently split upstream nodes with pairwise "
+    "different state sizes in every field order, with and without an own splitter on the consuming node — the encoder task has "
+    "five input fields —, also with the first upstream feeding two fields) is executed by pydra (debug worker), by the Lean spec interpreter and by the Lean model; workflow outputs, "
     "per-node job counts and per-node job inputs (read from the cache root) are compared three ways; on every sixth workflow "
     "a second run over the same objects is compared with the model's second run (Model.runTwice, used by C30).",
     "note": "Trusted: Lean kernel; hand-written Lean model of State/_create_graph/NodeExecution/LazyOutField (tied to the code "
